@@ -76,6 +76,11 @@ func (n *Net) RoundTrip(req *http.Request) (*http.Response, error) {
 	if b.Fn != nil {
 		status, out, err = b.Fn(req, body)
 	}
+	// the origin has answered (what it had at request time); when the answer reaches the client is up to the scheduler:
+	// everything another thread does may happen while the answer is on the wire
+	if vsched.Active() {
+		vsched.Point("net.response", n, nil)
+	}
 	if err != nil {
 		return nil, err
 	}
